@@ -330,8 +330,8 @@ def campaign_kill(work, tier, rnd, it, dist):
             jobs.append(("selfkill", k, 0, False, 8, 0.0))
         jobs.append(("selfkill", 300, 1, True, 60, 0.0))
         jobs.append(("selfkill", 10 ** 8, 0, False, 8, 0.0))         # never fires: the control
-        for _ in range(3):
-            jobs.append(("victim", 0, 1, True, 300, rnd.uniform(0.0, 0.03)))
+        for _ in range(6):
+            jobs.append(("victim", 0, 1, True, 120, rnd.uniform(0.0, 0.03)))
     else:
         for k in range(1, 140):
             jobs.append(("selfkill", k, 0, False, 8, 0.0))
@@ -339,10 +339,10 @@ def campaign_kill(work, tier, rnd, it, dist):
             jobs.append(("selfkill", k, 1, True, 60, 0.0))
         jobs.append(("selfkill", 10 ** 8, 0, False, 8, 0.0))
         for i in range(80):
-            jobs.append(("victim", 0, 1 if i % 2 else 0, True, 300, rnd.uniform(0.0, 0.03)))
+            jobs.append(("victim", 0, 1 if i % 2 else 0, True, 120, rnd.uniform(0.0, 0.03)))
     cases = []
     # how long does the victim's INSERT + COMMIT take here?  kill delays are drawn from 0 .. 1.3 x that
-    cases += one_kill(work, it, dist, 10 ** 6, "victim", 0, 1, True, 300, None)
+    cases += one_kill(work, it, dist, 10 ** 6, "victim", 0, 1, True, 120, None)
     span = 1.3 * dist["victim_insert_commit_ms"] / 1000.0
     jobs = [j[:5] + (rnd.uniform(0.0, span),) if j[0] == "victim" else j for j in jobs]
     with ThreadPoolExecutor(max_workers=8) as ex:
